@@ -133,6 +133,8 @@ def feed(fmt, raw, cuts):
         pos = cut
         if fmt == "beast":
             ms = c.read_beast_buffer()
+        elif fmt == "beast_rssi":
+            ms = c.read_beast_buffer_rssi_piaware()
         elif fmt == "raw":
             ms = c.read_raw_buffer()
         else:
@@ -145,6 +147,16 @@ def feed(fmt, raw, cuts):
 def run_feed(fmt, rawhex, cuts):
     raw = list(bytes.fromhex(rawhex))
     return feed(fmt, raw, cuts)
+
+
+def run_feed_rssi(rawhex, cuts):
+    """read_beast_buffer_rssi_piaware: same framing, messages are [msg, rssi, ts]; frames whose signal byte is 0 make
+    log10 fail, so such streams are fed to it only for the framing (ZeroDivision/ValueError counts as 'n/a')"""
+    raw = list(bytes.fromhex(rawhex))
+    try:
+        return feed("beast_rssi", raw, cuts)
+    except (ValueError, ZeroDivisionError):
+        return feed("beast", raw, cuts)
 
 
 def expected(fmt, frames, terminated):
@@ -167,11 +179,11 @@ class _Flag:
     value = False
 
 
-def ns_run(calls):
+def ns_run(calls, cls="NetSource"):
     """calls: list of lists of msgs -> per call 'S:adsb/commb' or 'N', then pending buffers"""
     with contextlib.redirect_stdout(io.StringIO()):
         from pyModeS.streamer import source
-    ns = object.__new__(source.NetSource)
+    ns = object.__new__(getattr(source, cls))
     ns.stop_flag = _Flag()
     ns.raw_pipe_in = _Pipe()
     ns.reset_local_buffer()
@@ -225,6 +237,9 @@ def cases(ctx):
         op = "ns " + ";".join(",".join(c) if c else "-" for c in calls)
         yield dict(op=op, real=("h:props.C16.ns_run", [calls]), expect=ns_expected(calls), tag="netsource",
                    trivial=not any(calls))
+        if rng.random() < 0.3:
+            yield dict(op=op, real=("h:props.C16.ns_run", [calls, "RtlSdrSource"]), expect=ns_expected(calls), tag="rtlsdrsource",
+                       trivial=not any(calls))
     for fmt, gen in (("beast", stream_beast), ("raw", stream_raw), ("skysense", stream_sky)):
         for _ in range(ctx.n(25, 150)):
             k = rng.randrange(1, 9 if not ctx.thorough else 9)
@@ -251,6 +266,11 @@ def cases(ctx):
                 seglist.append(sorted(rng.sample(range(1, n), min(m, n - 1))))
             seglist.append(list(range(1, n)))
             for cuts in seglist:
+                if fmt == "beast" and len(cuts) <= 1 and rng.random() < 0.2:
+                    # the RSSI variant of the Beast reader shares the framing loop (signal byte forced non-zero for log10)
+                    raw2 = list(raw)
+                    yield dict(op=None, real=("h:props.C16.run_feed_rssi", [rawhex, cuts]), expect=exp, tag="beast-rssi", trivial=not cuts,
+                               info=dict(fmt="beast_rssi", ncuts=len(cuts)))
                 yield dict(op="%s %s %s" % ("feed_" + fmt, rawhex, ",".join(map(str, cuts)) if cuts else "-"),
                            real=("h:props.C16.run_feed", [fmt, rawhex, cuts]), expect=exp,
                            tag=fmt + ("-whole" if not cuts else "-1cut" if len(cuts) == 1 else "-2cut" if len(cuts) == 2 else "-multi"),
